@@ -170,7 +170,7 @@ func c07Enumerate(r *mc.Report, n int, shard, nshards int) {
 func init() {
 	mc.Register(&mc.Check{
 		Prop:        "C07",
-		Rule:        "[rebuild-after-edit] every history to depth 5 (quick) / 6 (thorough) over {14 Add variants (singleton / transient / scoped consumers with optional, required, keyed, group and keyed-optional dependencies; singleton and scoped providers, keyed providers, group members, unrelated services), Remove x3, RemoveKeyed, Build (<=2)}: the verdict of every Build of the edited collection equals the verdict of a FRESH collection holding the surviving registrations (differential oracle), a successful Build hands no scoped instance to a singleton / transient and leaves no registered identity unresolvable. all dependency DAGs on <=4 services (edges respecting a fixed order; 1/2/8/64 DAGs) x all 3^n lifetime assignments x dependency forms: every per-target combination of {plain, keyed, group} for n<=3, uniform plain/keyed/group for n=4, interface aliases for the last one/two services, two-member groups of one type with every lifetime mix, In-struct and positional consumers; Build verdict compared with the model (lifetime-conflict error through BuildError iff some singleton/transient declares a dependency whose registration is scoped); on success every identity is resolved from a scope, its child and again, and no recorded constructor invocation of a singleton/transient may have received an instance of a scoped registration. distinct = (size, edge forms, verdict, model verdict) classes.",
+		Rule:        "all dependency DAGs on <=4 services (edges respecting a fixed order; 1/2/8/64 DAGs) x all 3^n lifetime assignments x dependency forms: every per-target combination of {plain, keyed, group} for n<=3, uniform plain/keyed/group for n=4, interface aliases for the last one/two services, two-member groups of one type with every lifetime mix, In-struct and positional consumers; Build verdict compared with the model (lifetime-conflict error through BuildError iff some singleton/transient declares a dependency whose registration is scoped); on success every identity is resolved from a scope, its child and again, and no recorded constructor invocation of a singleton/transient may have received an instance of a scoped registration. distinct = (size, edge forms, verdict, model verdict) classes. Rebuild after edit: every history to depth 5 (quick) / 6 (thorough) over {14 Add variants (singleton / transient / scoped consumers with optional, required, keyed, group and keyed-optional dependencies; singleton and scoped providers, keyed providers, group members, unrelated services), Remove x3, RemoveKeyed, Build (<=2)}: the verdict of every Build of the edited collection equals the verdict of a FRESH collection holding the surviving registrations (differential oracle), a successful Build hands no scoped instance to a singleton / transient and leaves no registered identity unresolvable.",
 		Assume:      []string{"'random larger sets' of the property are not covered: the claim is all sets with <= 4 services"},
 		MinOutcomes: 6,
 		Jobs: func(tier string) []mc.Job {
